@@ -144,8 +144,8 @@ def check_summary_body(rep, ctx):
     rep.functions_encoded.append(body)
     n_t = n_f = 0
     for i, r in enumerate(paths):
-        if r.status == "panic":
-            continue          # panics (e.g. truncation at a non-boundary) are the subject of C13
+        if r.status in ("panic", "cut"):
+            continue          # panics are the subject of C13; paths beyond the loop bound of the boundary search are outside the bound
         flag = r.args[0].child(("f", cap["log_authorize_failed"])).scalar("bool")
         failed = [e for e in r.events if e.kind == "await" and e.callee.endswith("add_one_failed_connection_summary")]
         plain = [e for e in r.events if e.kind == "await" and e.callee.endswith("add_one_connection_summary")]
